@@ -34,7 +34,7 @@ def fiber_cases(ctx):
 def tensor_cases(ctx):
     rng = ctx.rng
     out = []
-    n = 1000 if ctx.quick else 12000
+    n = 2500 if ctx.quick else 14000
     for _ in range(n):
         depth = rng.choice([2, 3])
         t = rand_tree(rng, 4, depth)
